@@ -16,6 +16,33 @@ LEAN_TARGETS = ["PV.C17.Thm"]
 DRIVER = "drv_c17"
 HARNESS = {"bin": "pvh_c17", "features": "default"}
 THEOREMS = [
+    "PV.C17.strip_underlines_spec",
+    "PV.C17.parse_bytes_eq_parse_str_partial",
+    "PV.C17.parse_bytes_vertical_tab_fails",
+    "PV.C17.repr_special",
+    "PV.C17.repr_shape",
+    "PV.C17.repr_roundtrip_partial",
+    "PV.C17.repr_roundtrip_fails",
+    "PV.C17.hex_eq_py_partial",
+    "PV.C17.hex_eq_py_fails",
+    "PV.C17.exponent_two_digits",
+    "PV.C17.exponent_eq_py",
+    "PV.C17.exponent_reads_back",
+    "PV.C17.format_fixed_eq_printf",
+    "PV.C17.format_exponent_eq_printf",
+    "PV.C17.general_decision_eq_printf",
+    "PV.C17.general_precision0_fails",
+    "PV.C17.from_hex_inexact_rejected",
+    # facts about PV.Dec itself
+    "PV.Dec.ofDigits_natDigits",
+    "PV.Dec.natDigits_lt10",
+    "PV.Dec.natDigits_length_of_bounds",
+    "PV.Dec.roundHalfEven_half_unit",
+    "PV.Dec.roundHalfEven_tie_even",
+    "PV.Dec.fixedInt_half_unit",
+    "PV.Dec.ilog10_spec",
+    "PV.Dec.expRound_bounds",
+    "PV.Dec.expDigits_length",
 ]
 TRUSTED = [
     "Lean 4.33.0 kernel; axioms limited to propext, Classical.choice, Quot.sound",
@@ -28,12 +55,45 @@ TRUSTED = [
     "lean/PV/C17/Spec.lean is executed against it on every run (spec validation)",
     "tools/props/c17.py (generators, oracle), harness/src/bin/pvh_c17.rs, lean/Drv/C17.lean",
 ]
-PARTIAL = []
-READY = False
+PARTIAL = [
+    "repr_roundtrip_partial and repr_shape assume PV.C17.DecFacts / FracDigits for the double (shortest digits round "
+    "back through ofDecimal; an is_integer value is recovered from its one-decimal rendering; a non-is_integer value "
+    "has digits after the point). These are facts about digit generation (PV.Dec), evaluated by the driver on every "
+    "sampled finite double of the run (coverage.dec_facts: all hold except at +-0.9999999999999999), not proved for "
+    "all 2^64 patterns. What IS proved for all doubles: the notation decision, the layouts, the exponent suffix and "
+    "that the parser (trim, underscore stripping, grammar scanner, exponent reader) inverts each layout.",
+    "'is a shortest such rendering' is inherited from Rust's {:e}/Display (Grisu/Dragon) = PV.Dec.shortest; minimality "
+    "of PV.Dec.shortest is not proved in Lean, it is compared with CPython's repr digit count on every sampled double.",
+    "hex_roundtrip (from_hex(to_hex x) = x) is not proved in Lean: it is checked by the fhexrt stream on every sampled "
+    "double; hex_eq_py_partial proves to_hex = float.hex() textually for all non-subnormal doubles.",
+    "Acceptance-set equality of the parser with Python's float() grammar (Spec.pyFloatRe) is not proved in Lean; it is "
+    "checked exhaustively for every string of length <= 5 (quick) / 6 (thorough) over 12 symbols plus structured "
+    "random and malformed texts, against CPython itself; strip_underlines_spec proves the underscore rule for all texts.",
+    "That Rust's formatting / lexical / hexf primitives equal PV.Dec (correctly rounded digits, shortest digits with "
+    "ties upwards, correctly rounded parsing) is sampled by the dec-primitives and parse streams, not proved.",
+    "Full statements that FAIL on the unchanged code, each with a witnessed negation: repr round trip "
+    "(repr_roundtrip_fails), to_hex = float.hex() on subnormals (hex_eq_py_fails), %g at precision 0 "
+    "(general_precision0_fails), parse_bytes = parse_str with a vertical tab (parse_bytes_vertical_tab_fails), "
+    "from_hex on inexact input (from_hex_inexact_rejected).",
+]
+READY = True
 TECHNIQUE = ("Lean 4 theorems over a hand-written model built on exact big-Nat binary<->decimal arithmetic + "
              "boundary-directed and exhaustive-small-scope correspondence with the real crate, judged by CPython")
-LEVEL_TEXT = ""
-LEVEL_NOTE = ""
+LEVEL_TEXT = ("Machine-checked Lean 4 theorems over an executable model of literal/src/float.rs built on exact big-Nat "
+              "binary<->decimal arithmetic: underscore stripping accepts exactly 'underscores between digits' (all "
+              "texts); repr has Python's shape and special names; parse_str inverts every repr layout (round trip, "
+              "conditional on per-double digit-generation facts that the run evaluates on every sampled double); "
+              "to_hex equals float.hex() off the subnormals; the exponent suffix is sign + >= 2 digits and reads back; "
+              "format_fixed / format_exponent / format_general equal ISO C %f/%e/%g (with '#') over correctly rounded "
+              "digits for all doubles and all precisions (g: >= 1); rounding is within half a unit, ties to even. "
+              "Five deviations from Python are proved as witnessed negations and listed as known findings. The model is "
+              "tied to the Rust code on every run by boundary-directed and exhaustive-small-scope correspondence, and "
+              "the real code is judged directly by CPython (repr, float, float.hex, float.fromhex, %).")
+LEVEL_NOTE = ("Trusted: Lean kernel (propext/Classical.choice/Quot.sound only); fidelity of the hand model and of PV.Dec "
+              "to Rust's float formatting, lexical-parse-float and hexf-parse as sampled by correspondence (every "
+              "binary exponent, +-2 ulp around every power of two and ten and around integers, ties at every "
+              "precision 0..20, all strings of length <= 5/6 over 12 symbols); CPython 3.11 as the reference; "
+              "generator, oracle, harness, driver.")
 RULE = ("request lines (double bit pattern or candidate text x conversion) sent to both the real crate and the "
         "Lean model; distinct = distinct request line; non-trivial = every request")
 
@@ -631,6 +691,20 @@ def streams(ctx):
         _spec_validation(ctx, sv_bits, sv_txt)
     except Exception as e:       # never let the reference cross-check break the property check
         ctx.notes.append(f"spec validation could not run: {e!r}")
+
+    # ---- hypotheses of repr_roundtrip_partial / repr_shape, evaluated by the model on every sampled finite double
+    try:
+        fin = [b for b in _dedup(corpus_vals + sweep + p10 + p2 + ints + rnd + list(NEAR_ONE)) if is_finite_bits(b)]
+        got = core.run_lines([core.driver_path(DRIVER)], [f"decfacts {b}" for b in fin], jobs=4 if q else 16)
+        failing = [b for b, g in zip(fin, got) if g != "ok"]
+        ctx.extra["dec_facts"] = {"doubles": len(fin), "failing": len(failing), "failing_bits": failing[:10],
+                                  "expected_failing": sorted(NEAR_ONE),
+                                  "note": "PV.C17.DecFacts (hypothesis of repr_roundtrip_partial) decided by drv_c17; "
+                                          "it must fail exactly at +-0.9999999999999999 (the listed finding)"}
+        if sorted(failing) != sorted(NEAR_ONE):
+            ctx.notes.append(f"DEC FACTS: hypothesis of repr_roundtrip_partial fails on unexpected doubles {failing[:5]}")
+    except Exception as e:
+        ctx.notes.append(f"dec-facts evaluation could not run: {e!r}")
     return out
 
 
